@@ -114,6 +114,8 @@ fn main() {
         "c05" => props::c05::run(seed, n, &mut out),
         "c11" => props::fm::run_c11(seed, n, &mut out, exhaustive),
         "c12" => props::fm::run_c12(seed, n, &mut out),
+        "c13" => props::fm::run_c13(seed, n, &mut out),
+        "c14" => props::fm::run_c14(seed, n, &mut out),
         "c15b" => props::fm::run_c15b(seed, n, &mut out),
         _ => {
             eprintln!("unknown property {}", prop);
